@@ -40,7 +40,7 @@ const (
 )
 
 var paramNames = [...]string{"MaxRetries", "Wait", "BatchConcurrency", "BatchErrorHandling", "Prep", "Exec", "Post", "Fallback"}
-var paramVals = [...]int{2, 2, 2, 2, 2, 4, 2, 2}
+var paramVals = [...]int{3, 2, 2, 2, 2, 4, 2, 2}
 
 type cfgSetting struct {
 	param, val int
@@ -76,7 +76,7 @@ func defaultRec() cfgRec {
 	return cfgRec{retries: 1, wait: 0, conc: 0, errh: "continue", prep: "default", exec: "default", post: "default", fb: "default"}
 }
 
-var retryVals = []int{1, 3}
+var retryVals = []int{1, 3, 0} // 0: an explicit zero is a setting like any other (it means one attempt when run)
 var waitVals = []time.Duration{0, 5 * time.Millisecond}
 var concVals = []int{0, 2}
 var errhVals = []bool{true, false}
